@@ -103,7 +103,8 @@ Inductive ev :=
 | EProc (s : TaskState) (outs : vars)
 | EAct (ok : bool)
 | EPop (tid : nat)
-| EQuiet.
+| EQuiet
+| EFire (tid on : nat) (now start limit : Z).       (* a timeout rule fires *)
 
 Record eng := { nodes : list node; tasks : list task; rows : list (option task); queue : list nat;
                 trace : list ev; oof : bool; exn : bool; pstate : TaskState; prow : option TaskState;
@@ -685,7 +686,8 @@ Definition do_tick (e : eng) (adv : Z) : eng :=
     fold_left (fun ee t =>
       fold_left (fun ee2 (r : nat * Z) =>
         if rule_fires (clock ee2) (t_start (tk ee2 t)) (t_tmo_done (tk ee2 t)) (is_completed (st ee2 t)) r then
-          sched_nodes (add_tmo_done ee2 t (fst r)) (children_in (tnode ee2 t) (OTimeout (fst r))) t
+          sched_nodes (add_tmo_done (add_ev ee2 (EFire t (fst r) (clock ee2) (t_start (tk ee2 t)) (snd r))) t (fst r))
+                      (children_in (tnode ee2 t) (OTimeout (fst r))) t
         else ee2) (t_timeouts (tk ee t)) ee) sorted e
   else e.
 
